@@ -1,13 +1,14 @@
 import Driver.Proto
 import Dawgs.Model.C12
 /-! Model driver for C12 (suite `c12`): same line protocol as harness/c12.go, answers
-`<ret> | <dump of entity 0> | <dump of entity 1>`.  `mode current|fixed` selects which merge the model runs for
-the rest of the case (`load` starts a new case and keeps the mode chosen just before it). -/
+`<ret> | <dump of entity 0> | <dump of entity 1>`.  The model runs the merges of the code as it is; `mode old` (alias
+`mode current`, the name used before the fix was committed) switches the rest of the case to the merges before commit
+179da67 — only old replay files use it; `mode fixed` switches back. -/
 namespace Driver.C12
 open Dawgs.C12
 
 structure DSt where
-  fixed : Bool := false
+  old : Bool := false
   st : Option St := none
 
 /-! #### tokens -/
@@ -74,7 +75,7 @@ def withDump (st : St) (ret : String) : String := s!"{ret} | {dumpEnt st.e0} | {
 /-! #### one line -/
 
 def apply (d : DSt) (st : St) (o : Op) : DSt × String :=
-  let st' := st.step d.fixed o
+  let st' := st.step d.old o
   ({ d with st := some st' }, withDump st' "ok")
 
 def readOut (d : DSt) (st : St) (r : String) : DSt × String := (d, withDump st r)
@@ -104,6 +105,21 @@ def stepLoaded (d : DSt) (st : St) (ts : List String) : DSt × String :=
   | ["len", e] => match entOf e with
       | some e => readOut d st s!"n{(st.get e).props.len}"
       | none => bad d
+  | ["gf", e, k, v, fb] => match entOf e, keyOf k, valOf v, (fb.splitOn ",").mapM keyOf with
+      | some e, some k, some v, some fb => readOut d st s!"v{(st.get e).props.getWithFallback k v fb}"
+      | _, _, _, _ => bad d
+  | ["keys", e] => match entOf e with
+      | some e => readOut d st ("k" ++ commaOr "-" ((sortNat (st.get e).props.keys).map keyStr))
+      | none => bad d
+  -- what the pg batch node-update builders send: Kinds, DeletedKinds, the whole map, DeletedProperties()
+  | ["drv", e] => match entOf e with
+      | some e =>
+        let x := st.get e
+        readOut d st s!"u kinds={kindsStr x.kinds} dkinds={kindsStr x.removed} props={mapStr (some x.props.m)} dprops={setStr (some x.props.del)}"
+      | none => bad d
+  | ["rmerge", e, f] => match entOf e, entOf f with
+      | some e, some f => apply d st (.rmerge e f)
+      | _, _ => bad d
   | ["clone", e, f] => match entOf e, entOf f with
       | some e, some f => apply d st (.clone e f)
       | _, _ => bad d
@@ -123,9 +139,11 @@ def stepLoaded (d : DSt) (st : St) (ts : List String) : DSt × String :=
 
 def step (d : DSt) (ts : List String) : DSt × String :=
   match ts with
-  | ["mode", "current"] => ({ d with fixed := false }, "ok")
-  | ["mode", "fixed"] => ({ d with fixed := true }, "ok")
-  | ["load", m, ks] => match parseMap m, parseKinds ks false with
+  | ["mode", "current"] => ({ d with old := true }, "ok")
+  | ["mode", "old"] => ({ d with old := true }, "ok")
+  | ["mode", "fixed"] => ({ d with old := false }, "ok")
+  -- `load <map> <kinds> [<constructor> [node|rel]]`: every constructor yields the same untracked state
+  | "load" :: m :: ks :: _ => match parseMap m, parseKinds ks false with
       | some m, some ks =>
         let st := St.init { store := m, kinds := allSome ks }
         ({ d with st := some st }, withDump st "ok")
